@@ -114,6 +114,20 @@ class Env:
             def visit_NamedExpr(self, n):
                 return self.visit(n.value)
 
+            def _scoped(self, n):
+                # names bound by a comprehension / lambda are not locals of the function
+                bound = set()
+                if isinstance(n, ast.Lambda):
+                    a = n.args
+                    bound = {x.arg for x in a.posonlyargs + a.args + a.kwonlyargs} | {x.arg for x in (a.vararg, a.kwarg) if x is not None}
+                else:
+                    for g in n.generators:
+                        bound |= {x.id for x in ast.walk(g.target) if isinstance(x, ast.Name)}
+                sub = T(self.d, self.frozen | bound)
+                return ast.NodeTransformer.generic_visit(sub, n)
+
+            visit_ListComp = visit_SetComp = visit_DictComp = visit_GeneratorExp = visit_Lambda = _scoped
+
             def visit_Name(self, n):
                 if isinstance(n.ctx, ast.Load) and n.id not in keep and n.id not in self.frozen and self.d > 0:
                     v = env.single(n.id)
